@@ -616,4 +616,86 @@ def jwtParse (av : AlgVerifier) (find : String → PO SigningKey) (hdrAlg : Stri
     verify key sigLen
     claims
 
+/-! ## header decoding: one decode feeds the allow-list and the key lookup
+
+`jws.Header.UnmarshalJSON` decodes the header bytes **once** into a Go map (`encoding/json`: member
+names exact, of duplicate members the last one stays) and every later reader — the allow-list in
+`Verifier.verify` / `Parser.Parse`, `JWKKeyFinder`, `guessAlg`, `JWKSKeyFinder` (kid) — reads that one
+map through `jsonutils.Decoder.GetString`.  The model has the same shape: one `json.decodeMap`
+query, one `HdrView`.  An implementation that decoded the bytes a second time with different
+matching rules (struct tags are matched case-insensitively) cannot be written as an instance of this
+model; that the code *is* an instance is what the correspondence run establishes. -/
+
+/-- `jsonutils.Decoder.GetString(name)`: absent ⇒ "", a JSON string ⇒ it, any other type ⇒ the
+    decoder's saved type error.  The name is compared exactly (Go map index). -/
+def headerString (name : String) (obj : Wire) : Outcome String :=
+  match obj.get? name with
+  | Option.none => .ok ""
+  | some (.str s) => .ok s
+  | some _ => .err "header-type"
+
+/-- what C03's decisions read of a decoded header -/
+structure HdrView where
+  alg : String
+  kid : String
+deriving DecidableEq, Repr, Inhabited
+
+/-- `Header.UnmarshalJSON` as far as C03 reads it (`json.decodeMap` = `json.Decoder.Decode` into
+    `map[string]any`: `none` on a syntax/type error, `null` for the JSON value null = nil map) -/
+def decodeHeaderView (raw : Bytes) : PO HdrView := do
+  let w ← PO.query "json.decodeMap" [.bytes raw]
+  match w with
+  | .none => PO.fail "header-parse"
+  | _ => do
+    let alg ← PO.ofOutcome (headerString jwa.AlgorithmKey w)
+    let kid ← PO.ofOutcome (headerString jwa.KeyIDKey w)
+    pure ⟨alg, kid⟩
+
+/-- jwt.JWKSKeyFinder.FindKey: the header's kid selects the key (first key of the set with that kid),
+    then `guessAlg` as for a single JWK -/
+def jwtJWKSKeyFinder (set : List (String × Key)) (h : HdrView) : PO SigningKey :=
+  if h.kid = "" then PO.fail "kid-not-set"
+  else match lookupName h.kid set with
+    | Option.none => PO.fail "key-not-found"
+    | some k => jwtJWKKeyFinder k h.alg
+
+/-- jwt.Parser.Parse from the header *bytes* on: decode once, then `jwtParse` on the decoded view -/
+def jwtParseRaw (av : AlgVerifier) (find : HdrView → PO SigningKey) (rawHeader : Bytes) (sigLen : Nat)
+    (claims : PO Unit) : PO Unit := do
+  let h ← decodeHeaderView rawHeader
+  jwtParse av (fun _ => find h) h.alg sigLen claims
+
+/-- one signature of a parsed JWS before header decoding: the base64url-decoded protected header
+    bytes and the unprotected header's JSON text -/
+structure RawSig where
+  protectedRaw : Option Bytes
+  headerRaw : Option Bytes
+  sigLen : Nat
+deriving Repr, Inhabited
+
+def decodeOptHeader : Option Bytes → PO (Option String)
+  | Option.none => pure Option.none
+  | some b => do
+    let h ← decodeHeaderView b
+    pure (some h.alg)
+
+/-- jws.ParseCompact / Message.UnmarshalJSON as far as C03 reads them: each header decoded once, at
+    parse time; a header that does not decode fails the whole parse -/
+def decodeSigEntry (r : RawSig) : PO SigEntry := do
+  let p ← decodeOptHeader r.protectedRaw
+  let h ← decodeOptHeader r.headerRaw
+  pure ⟨p, h, r.sigLen⟩
+
+def decodeEntries : List RawSig → PO (List SigEntry)
+  | [] => pure []
+  | r :: rest => do
+    let e ← decodeSigEntry r
+    let es ← decodeEntries rest
+    pure (e :: es)
+
+/-- parse then `Verifier.Verify` -/
+def jwsVerifyRaw (av : AlgVerifier) (find : SigEntry → PO SigningKey) (raws : List RawSig) : PO Nat := do
+  let ents ← decodeEntries raws
+  jwsVerify av find ents
+
 end Model.Binding
